@@ -12,6 +12,7 @@
      - integer rules.multipleOf: "not implemented" (buf.validate has no such rule)
      - a string pattern / custom key pattern that regexp.Compile refuses
      - array rules.uniqueItems = true on message typed items
+     - default filters of an enum field that name no option of the enum
    [compile_object] adds what the link step refuses: two properties whose proto
    field names (strcase.ToSnake of the property name) coincide.
    Definitions only. *)
@@ -77,6 +78,27 @@ Definition front_checks (re_ok : str -> bool) (x : xprop) : outcome unit :=
       end
   end.
 
+(* EnumRef.hasValue: the name, or the prefix followed by the name, is a key of ValMap
+   (the full names of the declared options and of the explicit zero option) *)
+Definition full_known (env : enum_env) (full : str) : bool :=
+  match lookup_from env (ee_options env) 1 full with
+  | Some _ => true
+  | None => match ee_zero env with
+            | Some z => str_eqb (with_prefix env z) full
+            | None => false
+            end
+  end.
+Definition has_value (env : enum_env) (name : str) : bool :=
+  full_known env name || full_known env (ee_prefix env ++ name)%list.
+
+(* listRules.filtering.defaultFilters of an enum field name options of the enum
+   (compile error otherwise, /repo fb0e252) *)
+Definition enum_filters_ok (env : enum_env) (t : fty) : bool :=
+  match t with
+  | TEnum _ (Some l) => forallb (has_value env) (lp_filters l)
+  | _ => true
+  end.
+
 (* setJ5Ext(.., "map", st.Map.Ext) when st.Map.Ext != nil *)
 Definition with_map_ext (x : xprop) (o : fout) : fout :=
   match x_map_ext x, fo_kind o with
@@ -88,7 +110,9 @@ Definition with_map_ext (x : xprop) (o : fout) : fout :=
 
 Definition compile_prop (re_ok : str -> bool) (env : enum_env) (idx : N) (x : xprop) : outcome fout :=
   obind (front_checks re_ok x) (fun _ =>
-  obind (write_prop env idx (x_prop x)) (fun o => Ok (with_map_ext x o))).
+  if enum_filters_ok env (item_of (p_ty (x_prop x)))
+  then obind (write_prop env idx (x_prop x)) (fun o => Ok (with_map_ext x o))
+  else Err "listRules.filtering.defaultFilters: enum value not found").
 
 Fixpoint compile_props_from (re_ok : str -> bool) (env : enum_env) (idx : N) (xs : list xprop) : outcome (list fout) :=
   match xs with
